@@ -154,6 +154,9 @@ type chainSource struct {
 	name  string
 	repr  string // dense | sparse
 	build func(c *engine.Ctx, key string, g *rg.G) graph.EditableGraph
+	// variant: a representation variant or a value made from a free-form input (variants.go); where chains are
+	// run "from every start value" the quick tier takes these in rotation
+	variant bool
 }
 
 // superGraph returns g with extra vertices inserted at the given position
@@ -212,13 +215,23 @@ func reversedInduced(g *rg.G) (*rg.G, []int) {
 }
 
 func chainSources() []chainSource {
+	srcs := baseChainSources()
+	for _, vs := range variantSources() {
+		src := vs.chainSource
+		src.variant = true
+		srcs = append(srcs, src)
+	}
+	return srcs
+}
+
+func baseChainSources() []chainSource {
 	dense := func(name string, f func(g *rg.G) graph.EditableGraph) chainSource {
-		return chainSource{name, "dense", func(c *engine.Ctx, key string, g *rg.G) graph.EditableGraph {
+		return chainSource{name: name, repr: "dense", build: func(c *engine.Ctx, key string, g *rg.G) graph.EditableGraph {
 			return guarded(c, key, func() graph.EditableGraph { return f(g) })
 		}}
 	}
 	sparse := func(name string, f func(g *rg.G) graph.EditableGraph) chainSource {
-		return chainSource{name, "sparse", func(c *engine.Ctx, key string, g *rg.G) graph.EditableGraph {
+		return chainSource{name: name, repr: "sparse", build: func(c *engine.Ctx, key string, g *rg.G) graph.EditableGraph {
 			return guarded(c, key, func() graph.EditableGraph { return f(g) })
 		}}
 	}
@@ -295,11 +308,12 @@ func chainSources() []chainSource {
 
 // chainStart is a start value of a chain: how to build it and what it is.
 type chainStart struct {
-	source string
-	repr   string
-	id     string // concrete input (start graph / parameters)
-	model  *rg.G
-	build  func(key string) graph.EditableGraph // nil result: could not be built
+	variant bool // see chainSource
+	source  string
+	repr    string
+	id      string // concrete input (start graph / parameters)
+	model   *rg.G
+	build   func(key string) graph.EditableGraph // nil result: could not be built
 }
 
 // conforms builds the start value once and checks it against its model
@@ -383,6 +397,9 @@ func (r *runner) runChain(st chainStart, ops []chainOp, everyStep bool, views in
 	api := "chain|" + st.repr
 	m := st.model
 	c.Obs(chainLenObs[len(ops)], 1)
+	if st.variant {
+		c.Obs("chains from a start value in a representation variant or made from a free-form input|"+st.repr, 1)
+	}
 	for k, o := range ops {
 		o := o
 		removedNonLast := o.kind == 'c' && o.j < m.N-1
@@ -452,7 +469,24 @@ func (r *runner) enumerate(starts []chainStart, pol []lenPolicy, counter *int) {
 			case *counter%p.stride != 0:
 				c.Obs(chainSkipObs[len(ops)], 1)
 			case p.nsrc == 0:
+				// every base start value; the variant start values all (thorough) or one in rotation (quick)
+				nv, turn := 0, 0
+				for _, st := range starts {
+					if st.variant {
+						nv++
+					}
+				}
+				if nv > 0 {
+					turn = *counter / p.stride % nv
+				}
+				vi := 0
 				for k, st := range starts {
+					if st.variant {
+						vi++
+						if !c.Thorough() && vi-1 != turn {
+							continue
+						}
+					}
 					r.runChain(st, ops, false, 1+(*counter+k)%2)
 				}
 			default:
@@ -475,9 +509,24 @@ var chainSkipObs = []string{"", "chains of length 1 enumerated but not run in th
 func (r *runner) startsFor(g *rg.G) []chainStart {
 	var sts []chainStart
 	id := gid(g)
-	for _, src := range chainSources() {
+	srcs := chainSources()
+	nv, vi := 0, 0
+	for _, src := range srcs {
+		if src.variant {
+			nv++
+		}
+	}
+	first := int(contentHash(g) % uint64(nv))
+	for _, src := range srcs {
 		src := src
-		st := chainStart{source: src.name, repr: src.repr, id: id, model: g, build: func(key string) graph.EditableGraph { return src.build(r.c, key, g) }}
+		if src.variant {
+			vi++
+			// quick: three of the variant kinds per start graph (which ones is a function of the graph)
+			if !r.c.Thorough() && (vi-1-first+nv)%nv >= 3 {
+				continue
+			}
+		}
+		st := chainStart{variant: src.variant, source: src.name, repr: src.repr, id: id, model: g, build: func(key string) graph.EditableGraph { return src.build(r.c, key, g) }}
 		if r.conforms(st) {
 			sts = append(sts, st)
 		}
@@ -764,7 +813,7 @@ func chainUnits(c *engine.Ctx) []unit {
 					g = gen.Random(rnd, n, rnd.Float())
 				}
 				src := srcs[rnd.Intn(len(srcs))]
-				st := chainStart{source: src.name, repr: src.repr, id: gid(g), model: g, build: func(key string) graph.EditableGraph { return src.build(c, key, g) }}
+				st := chainStart{variant: src.variant, source: src.name, repr: src.repr, id: gid(g), model: g, build: func(key string) graph.EditableGraph { return src.build(c, key, g) }}
 				if !r.conforms(st) {
 					continue
 				}
